@@ -682,10 +682,33 @@ pub fn run_c11_flips(ctx: &mut Ctx) -> R {
             coords.push((at, len, 0x00));
         }
     }
+    // and every two-bit flip inside the 24-bit length field of each block header (fill code 3: the two
+    // bit positions): a block type with a size rule (SEEKTABLE: a multiple of 18) is only reached with a
+    // wrong length through at least two flips
+    {
+        let mut pos = 4;
+        while pos + 4 <= bytes.len() {
+            let l = ((bytes[pos + 1] as usize) << 16) | ((bytes[pos + 2] as usize) << 8) | bytes[pos + 3] as usize;
+            let first = (pos + 1) * 8;
+            for i in 0..24 {
+                for j in i + 1..24 {
+                    coords.push((first + i, first + j, 3));
+                }
+            }
+            probe("c11_double_flips_in_block_length");
+            if bytes[pos] & 0x80 != 0 {
+                break;
+            }
+            pos += 4 + l;
+        }
+    }
     for (ci, (bit, len, fill)) in coords.iter().copied().enumerate() {
         let mut b = bytes.clone();
         if fill == 2 {
             b[bit >> 3] ^= 0x80 >> (bit & 7);
+        } else if fill == 3 {
+            b[bit >> 3] ^= 0x80 >> (bit & 7);
+            b[len >> 3] ^= 0x80 >> (len & 7);
         } else {
             let e = (bit + len).min(b.len());
             for x in &mut b[bit..e] {
@@ -696,6 +719,7 @@ pub fn run_c11_flips(ctx: &mut Ctx) -> R {
         let bit = if fill == 2 { bit } else { ci };
         let d = Disk::new(&ctx.ch, false);
         let f = d.create(b.clone());
+        let mark = crate::monitor::alloc_mark();
         let r = catch_unwind(AssertUnwindSafe(|| {
             let first = read_blocks(d.open(f, Benign::none())).collect::<Result<Vec<Block>, _>>();
             match first {
@@ -711,6 +735,13 @@ pub fn run_c11_flips(ctx: &mut Ctx) -> R {
             }
         }));
         ctx.extra_events += d.seq();
+        // a length field made large by the damage must not be believed before the bytes are there
+        // (the same bound as C04's entry points: a constant plus a small multiple of the input)
+        let peak = crate::monitor::alloc_peak_since(mark);
+        let bound = 64 * 1024 * 1024 + 16 * b.len();
+        if peak > bound {
+            return viol("alloc>bound", format!("damage coordinate {:?} in a metadata section: peak allocation {peak} bytes for a {}-byte input (bound {bound})", coords[ci], b.len()));
+        }
         match r {
             Err(_) => {
                 let (loc, msg) = take_panic().unwrap_or_default();
